@@ -253,9 +253,14 @@ func (t *Tree) Set(k, v uint64) {
 	root := t.set(1, k, v)
 	if root.isFull() {
 		right := t.split(1)
-		left := t.newNode(root.bits())
+		rightID := right.pageID()
 		// Re-read the root as the underlying buffer for tree might have changed during split.
 		root = t.node(1)
+		left := t.newNode(root.bits())
+		// Re-read the root and the right node as the underlying buffer for tree might have
+		// changed again during newNode.
+		root = t.node(1)
+		right = t.node(rightID)
 		copy(left[:keyOffset(maxKeys)], root)
 		left.setNumKeys(root.numKeys())
 
